@@ -1,27 +1,27 @@
 SPECIFICATION GSpec
 CONSTANTS
   Params = {"p1", "p2"}
-  Mod2 = {}
+  Mod2 = {"p2"}
   Vals = {"a", "b"}
   Errs = {"e1", "e2"}
   Invs = {"i1"}
   Conns = {"c1", "c2"}
-  OmitChoices = {2}
+  OmitChoices = {0}
   InitStamps = {1}
-  NoDefault = {"p1"}
-  InitScopeSets = {{}, {"all"}}
+  NoDefault = {}
+  InitScopeSets = {{}, {"mod2"}}
   HiddenChoices = {{}}
-  ActScopes = {"p1"}
+  ActScopes = {"all", "mod", "mod2", "p2"}
   RepKinds = {}
-  MaxNow = 8
-  Depth = 4
-  FullParams = {"p1"}
-  LiteParams = {"p2"}
+  MaxNow = 4
+  Depth = 3
+  FullParams = {}
+  LiteParams = {"p1", "p2"}
   GenConns = {"c2"}
   GenDefaults = {"b"}
-  GenLiteOmit = {2}
-  GenFixedSub = {"all"}
-  GenExtra = {"Nest"}
+  GenLiteOmit = {0}
+  GenFixedSub = {"mod2"}
+  GenExtra = {"Deact", "LiteErr"}
 CONSTRAINT Bound
 INVARIANT EmitMax
 CHECK_DEADLOCK FALSE
